@@ -112,6 +112,19 @@ Definition in_cooldown (x : gctx) : bool := lock_since (g_lock (x_st x)) (e_now 
 Definition set_desired_ok (calls : list call) : bool :=
   existsb (fun c => match c with CA (ASetDesired _ _ _ true) => true | _ => false end) calls.
 
+(* a fleet request that went through: CreateFleet accepted, and after it at least one AttachInstances call and none refused
+   (every instance acquired now sits in the group; a refused attach or a readiness time-out sends them to termination) *)
+Definition is_attach (c : call) : bool := match c with CA (AAttach _ _ _) => true | _ => false end.
+Definition is_attach_refused (c : call) : bool := match c with CA (AAttach _ _ false) => true | _ => false end.
+Fixpoint fleet_done (calls : list call) : bool :=
+  match calls with
+  | [] => false
+  | CA (ACreateFleet _ _ _ _ _ _ _ true) :: rest => existsb is_attach rest && negb (existsb is_attach_refused rest)
+  | _ :: rest => fleet_done rest
+  end.
+(* the cloud completed an increase: the group grows by the whole request *)
+Definition increase_done (calls : list call) : bool := set_desired_ok calls || fleet_done calls.
+
 Definition time_is (t : option Z) (now : Z) : bool := match t with Some v => v =? now | None => false end.
 
 (* the cloud accepted an increase: a successful SetDesiredCapacity or an accepted fleet request *)
@@ -132,8 +145,14 @@ Definition check_C02_group (x : gctx) (calls : list call) (post : gstate) : bool
      time is the one the scan found, so the lock cannot outlive the cool-down of the increase that armed it *)
   && (optZ_eqb' (l_time (g_lock post)) (l_time pre)
       || (time_is (l_time (g_lock post)) (e_now (x_env x)) && l_locked (g_lock post) && (x_dry x || increase_accepted calls)))
-  (* an accepted SetDesiredCapacity arms the lock at the instant of the scan *)
-  && (if set_desired_ok calls then l_locked (g_lock post) && time_is (l_time (g_lock post)) (e_now (x_env x)) else true).
+  (* a completed increase (an accepted SetDesiredCapacity, or a fleet request accepted and attached in full) arms the lock
+     at the instant of the scan *)
+  && (if increase_done calls then l_locked (g_lock post) && time_is (l_time (g_lock post)) (e_now (x_env x)) else true).
+
+(* C18, controller side: no cool-down lock is taken for capacity that did not arrive — the lock time moves only when the
+   cloud completed the increase (SetDesiredCapacity accepted; fleet request accepted and attached in full), or in dry mode *)
+Definition check_C18_group (x : gctx) (calls : list call) (post : gstate) : bool :=
+  optZ_eqb' (l_time (g_lock post)) (l_time (g_lock (x_st x))) || x_dry x || increase_done calls.
 
 (* ---------- C03 ---------- *)
 Definition in_class (l : list node) (name : id) : bool := existsb (fun n => n_name n =? name) l.
